@@ -116,6 +116,9 @@ fn session_main(args: &[String], dump: bool) -> i32 {
         if let Some(n) = std::env::var("DSIM_ISO").ok().and_then(|v| v.parse().ok()) {
             tr.knobs.iso = n; // experiment knob: fresh-process references per run (99 = all)
         }
+        if let Some(n) = std::env::var("DSIM_GUARD").ok().and_then(|v| v.parse().ok()) {
+            tr.knobs.guard = n; // experiment knob: allocator guard mode for every run
+        }
         if !dump {
             // so that the driver knows which run was executing if the process dies
             println!("BEGIN idx={idx}");
@@ -144,6 +147,10 @@ fn session_main(args: &[String], dump: bool) -> i32 {
         }
         for c in &classes {
             println!("CLASS {}", c.replace(' ', "_"));
+        }
+        if std::env::var_os("DSIM_GUARD").is_some() {
+            let maps = std::fs::read_to_string("/proc/self/maps").map_or(0, |m| m.lines().count());
+            println!("MAPPINGS {maps}");
         }
         println!("SESSION-END from={from} to={to}");
     }
